@@ -19,13 +19,81 @@ CHECKS = {
              'equals the Python per-station polarity likelihood; the polarity-probability kernel equals it for X != 0 or p+ + p- = 1 '
              '(and provably differs otherwise: known finding); the amplitude-ratio kernel on signed amplitudes equals the Python kernel '
              'for every odd erf with Phi = (1+erf(./sqrt2))/2; the scale-combination kernels equal the combine_mu step; the per-station '
-             'scale-factor kernel estimate_scale_mu_s equals the mean/deviation formulas of scale_estimator for all inputs. For every real '
+             'scale-factor kernel estimate_scale_mu_s equals the mean/deviation formulas of scale_estimator for all inputs; of '
+             'cmarkov_chain_monte_carlo.pyx: the transition-ratio kernel is the ratio of the Python proposal densities (full-tensor and '
+             'double-couple states), the balancing-density kernels equal jump_params, the uniform-prior ratio equals the ratio of the Python '
+             'priors (all four model combinations), the acceptance kernel with its three function pointers takes the shift / jump-down / '
+             'jump-up formula in exactly the stated cases, and composed: the compiled shift acceptance with the uniform prior IS the Python '
+             'Metropolis-Hastings acceptance; the flat-prior ratio across a model jump is proved different (known finding). For every real '
              'input, where the (skipped) *_cython tests compare a few fixed inputs.',
         note=AX_R + 'NOT covered: the compiled binaries, C arithmetic and memory views, the station/sample loops and dispatch wrappers, '
-             'random number generation, log-domain reductions, and the extension '
-             'modules cmarkov_chain_monte_carlo and cscatangle - no Cython toolchain exists in this environment and those are loops over '
+             'random number generation (new_samples, random_mt/dc), log-domain reductions, the module constant ND (a parameter of the model with the stated beta-density hypothesis), and the extension '
+             'module cscatangle and the loops / sample generation of cmarkov_chain_monte_carlo - no Cython toolchain exists in this environment and those are loops over '
              'typed memory views outside the translated fragment. tools/py2coq/pyx.py is trusted textual glue.',
         design='6 C20'),
+    'C08': dict(
+        technique='Coq proof over R (field/ring/lra, Lagrange identity) about a hand-written model, over abstract arithmetic, of one random sample as a function of the normal draws it consumes; bit-exact PrimFloat correspondence against the real generators fed with recorded draws',
+        text='Theorems in coq/Props/C08.v: the normalised six Gaussian draws have unit norm and the joint density of the draws depends only on '
+             'their sum of squares, hence is invariant under every rotation of the sqrt2-weighted six-vector space (uniformity on the '
+             '6-sphere); for every pair of non-parallel vector draws the three axes are orthonormal; the assembled six-vector has unit '
+             'norm and, as a tensor, exactly the prescribed eigenvalues on those axes (double-couple, CLVD, any pattern). All for every '
+             'value of the draws, i.e. every state of the generator. The unit tests check shape and norm of one draw.',
+        note=AX_R + 'the model is hand-written and tied by correspondence only: every returned sample must equal bit for bit the model on the '
+             'draws of its own column (this also shows that samples use independent draws). The step from a rotation-invariant density '
+             'to the law of the normalised vector, and from an isotropic frame to uniform orientation, is the standard argument and is '
+             'not formalised measure-theoretically; numpy.random is trusted; distributions are additionally sampled (7-sigma bands); '
+             'consecutive calls must not repeat a sample, results held across later calls must not change, the events of a joint draw differ. '
+             'The compiled generators are unavailable (C20).',
+        design='6 C08'),
+    'C17': dict(
+        technique='Coq proof (list induction) about a hand-written executable model of header-driven CSV event parsing and of the binary moment-tensor record codec; vm_compute correspondence against parse_csv on generated files and against the bytes written by _convert_mt_space_to_struct / read by read_binary_output',
+        text='Theorems in coq/Props/C17.v: a CSV row is read back field for field for every column order (extra columns allowed); an event '
+             'with any number of data types, each with its own header order, is parsed back to its UID and, type by type and row by row, '
+             'to the data of the file whatever state the previous event left; a binary record decodes to what was encoded for any number '
+             'of samples, with or without converted parameters, also as one of several concatenated records, and occupies exactly 41 + '
+             'n*64 (or n*168) bytes. The unit tests parse one embedded example each.',
+        note='closed under the global context (no axioms). Models are hand-written, tied by correspondence only; tokenising text and cutting '
+             'bytes into items is trusted harness glue. The NonLinLoc hyp parser, the pickled inversion file and the value-level binary '
+             'round trip are judged on the implementation against the generator\'s own data (direct oracle), not modelled. Well-formed files '
+             'only.',
+        design='6 C17'),
+    'C16': dict(
+        technique='Coq proof (induction over operation sequences, lia) about a hand-written executable model of the JobPool: an interleaving state machine and the collection functions over every arrival order; vm_compute correspondence replaying the arrival orders observed on real worker processes',
+        text='Theorems in coq/Props/C16.v: under EVERY interleaving of submissions, worker starts and finishes and result pops each task is '
+             'accounted for exactly once and number_jobs equals the outstanding count; when nothing is outstanding each non-status task '
+             'has been delivered exactly as often as submitted and nothing else; for EVERY order in which results can arrive, all_results '
+             'terminates and returns precisely the outstanding non-status results (exceptions included), and result() never blocks while '
+             'something is outstanding. The unit test runs a few tasks on one schedule.',
+        note='closed under the global context (no axioms). The model is hand-written and tied by correspondence only: the arrival order seen '
+             'by the parent in each real run is replayed through the model. Liveness assumes tasks terminate and a fair OS scheduler; '
+             'process creation, pipes and pickling are trusted; single-life mode is out of scope (documented as able to block). '
+             'A theorem cannot exhibit a real deadlock: blocking is detected on the runs by a time limit.',
+        design='6 C16'),
+    'C15': dict(
+        technique='Coq proof (list induction, lia; Reals field/nra) about a hand-written executable model of the joint multi-event sum with the station-intersection rule and of combine_mu over abstract arithmetic; vm_compute / bit-exact PrimFloat correspondence against the real task (with coded stubs) and combine_mu',
+        text='Theorems in coq/Props/C15.v for every number of events, station lists and minimum: without relative data the joint log-probability '
+             'is the sum of the events\' own; each further event adds its own term and one term per earlier event; a pair sharing fewer '
+             'stations than the minimum contributes nothing and otherwise contributes its term on exactly the shared stations, which do not '
+             'depend on the order in which the other event lists them; the scale factor combined over stations is the inverse-variance '
+             'weighted mean of the per-station estimates (variance: harmonic combination) and is independent of station order, for any '
+             'number of stations and positive uncertainties. The unit test runs one two-event case and checks types and shapes.',
+        note='joint theorems closed under the global context; ' + AX_R + 'for the combination theorems. Models are hand-written: tied by running '
+             'the real MultipleEventsForwardTask with integer-coded stubs for the per-event task and the pair likelihood (combine=True, '
+             'return_zero=True) and by bit-exact execution of combine_mu. The per-station estimate and its zero-noise limit (true ratio) '
+             'are judged on the implementation only; zero-filtering branches are not exercised; joint tasks with several location samples are exercised by one fixed probe (known finding).',
+        design='6 C15'),
+    'C18': dict(
+        technique='Coq proof (list induction, lia) about a hand-written executable model of the scatangle block parser, writer and greedy binning; vm_compute correspondence against the real functions on generated files',
+        text='Theorems in coq/Props/C18.v for every sample list, station count and bin size: the weights of the bins add up to the weights of '
+             'all input samples; every bin keeps one original record; every input sample is kept or was merged into a kept sample all of '
+             'whose station angles are within half the bin size; no two kept samples could have been merged; a zero bin size merges '
+             'nothing; reading what the writer wrote returns the same records, with or without the trailing blank line. No unit test '
+             'bins samples and compares total weight or round-trips the writer.',
+        note='closed under the global context (no axioms). The model is hand-written: tied to the code only by the correspondence run '
+             '(parse, bin and write-read of generated files compared inside Coq, integer-coded tenths of a degree). Text splitting and '
+             'float() are trusted glue; all records of a file are assumed to list the same stations; sub-sampling uses numpy.random and '
+             'only its size/membership is checked; the compiled cscatangle path is unavailable (C20).',
+        design='6 C18'),
     'C19': dict(
         technique='Coq proof about hand-written executable models: projection over abstract arithmetic (theorems at R, bit-exact PrimFloat execution against spherical_projection.py) and an integer-coded result container (list induction; vm_compute correspondence against MTData / unique_columns)',
         text='Theorems in coq/Props/C19.v: every unit vector that is shown keeps its azimuth and lands at radius 2 sin(t/2) (equal area) or '
@@ -38,7 +106,8 @@ CHECKS = {
         note='closed under the global context for the container theorems; ' + AX_R + 'for the projection theorems. The models are hand-written: '
              'tied to the code only by the correspondence runs (bit-exact floats; integer-coded containers incl. near-ties of one unit in '
              '2^-30 at the maximum). Mean, covariance and derived parameters (agreement with the stand-alone conversions, C12-C14) are judged '
-             'on the implementation. The projection_axis branch is not modelled.',
+             'on the implementation, including that a parameter read from the container does not depend on which of the 22 derived '
+             'parameters were requested before it, is the same when read again and on a slice taken afterwards. The projection_axis branch is not modelled.',
         design='6 C19'),
     'C12': dict(
         technique='Coq proof over R (field/nsatz/ring, conversion check of the inlined definitions against the composition of their parts) about MT33_MT6, MT6_MT33, GD_E, E_GD, Tape_MT33, Tape_MT6, SDR_TNP, FP_SDR translated from moment_tensor_conversion.py on every run',
@@ -51,7 +120,8 @@ CHECKS = {
         note=AX_R + 'numpy.linalg.eig/eigh is external, so the end-to-end round trips (tensor -> parameters -> tensor and back, nodal-plane '
              'switch for |slip| > pi/2, batched MT6_Tape / Tape_MT6 / output_convert) are theorems only piecewise and are judged '
              'end-to-end on the implementation for every source class and every face of the parameter domain; h -> dip uses acos '
-             'whose range facts are used only through sin^2 + cos^2 = 1.',
+             'whose range facts are used only through sin^2 + cos^2 = 1; a call on n columns at once (n = 1..9, so that 6 x 6 and 3 x 3 '
+             'blocks occur, arrays and matrices) must return column by column what it returns for the column alone (also C13, C14).',
         design='6 C12'),
     'C13': dict(
         technique='Coq proof over R (nsatz modulo sin^2+cos^2=1, atan2 polar-inverse lemma, numpy.mod lemmas) about SDR_TNP, SDR_FP, TP_FP and FP_SDR translated from moment_tensor_conversion.py on every run',
@@ -198,7 +268,9 @@ CHECKS = {
              'nothing during learning, afterwards holds exactly tried+1 entries (first state twice), last entry = current state, '
              '0 <= accepted <= tried, each step adds one entry and counts the acceptance, every entry is the start or a proposal with its own '
              'likelihood, the double-couple counter equals the number of double-couple entries, a constrained chain holds only double-couples, '
-             'the run ends exactly when tried reaches the chain length; detailed balance implies stationarity on any finite state space.',
+             'the run ends exactly when tried reaches the chain length; detailed balance implies stationarity on any finite state space; the kernel '
+             'the chain actually runs (propose, accept with probability a, otherwise stay) has unit rows, is non-negative and leaves pi invariant '
+             'whenever the acceptance rule balances, and so does the mixture of a jump kernel and a shift kernel for every jump probability.',
         note='accept/reject decisions are model inputs (their probabilities are C05); "samples the posterior" = C05 + stationarity theorem + assumed '
              'ergodicity and generator law; validated on every run by whole chains (trans-dimensional, constrained; thorough: full tensor, '
              'peaked posterior, dc_prior 0.3, uniform balancing draw) on a smooth synthetic likelihood against likelihood-weighted prior '
